@@ -11,6 +11,7 @@
 #include <igris/datastruct/slist.h>
 #include <memory>
 #include <string>
+#include <iterator>
 #include <vector>
 
 using namespace vpbt;
@@ -339,6 +340,24 @@ struct CDlistWorld
             VP_CHECK(dlist_check(h, bound) == n && dlist_check_reversed(h, bound) == n && dlist_is_correct(h), "c_dlist_check",
                      "L%zu dlist_check=%d reversed=%d is_correct=%d, %d elements", l, dlist_check(h, bound), dlist_check_reversed(h, bound),
                      (int)dlist_is_correct(h), n);
+            {
+                // a cursor walk whose *_entry argument has a side effect, and the first / last / next / prev entry macros
+                std::vector<int> walk;
+                dlist_head *cur = h;
+                for (int k = 0; k < n; k++)
+                    walk.push_back(dlist_entry(cur = cur->next, CNode, lnk)->id);
+                VP_CHECK(walk == model[l] && (n == 0 || cur == h->prev), "c_dlist_entry_cursor", "L%zu: dlist_entry(cur = cur->next, ...) walk gives %s, reference %s", l,
+                         seq_str(walk).c_str(), seq_str(model[l]).c_str());
+                if (n > 0)
+                {
+                    CNode *f = dlist_first_entry(h, CNode, lnk), *b = dlist_last_entry(h, CNode, lnk);
+                    VP_CHECK(f->id == model[l].front() && b->id == model[l].back(), "c_dlist_first_last_entry", "L%zu: first/last entry n%d/n%d, reference n%d/n%d", l, f->id,
+                             b->id, model[l].front(), model[l].back());
+                    if (n > 1)
+                        VP_CHECK(dlist_next_entry(f, lnk)->id == model[l][1] && dlist_prev_entry(b, lnk)->id == model[l][(size_t)n - 2], "c_dlist_next_prev_entry",
+                                 "L%zu: next of first / prev of last differ from the reference %s", l, seq_str(model[l]).c_str());
+                }
+            }
             // the bounded walkers need exactly n+1 looks to see an n-element ring close
             VP_CHECK(dlist_check(h, n + 1) == n && dlist_check_reversed(h, n + 1) == n, "c_dlist_check_tight",
                      "L%zu with %d elements: dlist_check(h,%d)=%d dlist_check_reversed(h,%d)=%d", l, n, n + 1, dlist_check(h, n + 1), n + 1,
@@ -730,6 +749,21 @@ struct CxxDlistWorld
             std::vector<int> fwd, rev, rev2;
             for (auto it = L.begin(); it != L.end(); ++it)
                 fwd.push_back(it->id);
+            if (!ring[l].empty())
+            {
+                // the standard iterator helpers, which dispatch on the iterator's declared category
+                size_t n = ring[l].size();
+                auto last = std::prev(L.end());
+                auto it = L.begin();
+                std::advance(it, (long)n - 1);
+                VP_CHECK(last->id == ring[l].back() && it->id == ring[l].back(), "cxx_dlist_std_helpers", "L%zu: std::prev(end()) is n%d, std::advance(begin(), %zu) is n%d, reference n%d",
+                         l, last->id, n - 1, it->id, ring[l].back());
+                std::advance(it, -((long)n - 1));
+                auto e1 = std::next(L.end(), -1);
+                VP_CHECK(it->id == ring[l].front() && e1->id == ring[l].back() && (size_t)std::distance(L.begin(), L.end()) == n, "cxx_dlist_std_helpers",
+                         "L%zu: std::advance back by %zu gives n%d (reference n%d), std::next(end(), -1) n%d, std::distance %zu (reference %zu)", l, n - 1, it->id,
+                         ring[l].front(), e1->id, (size_t)std::distance(L.begin(), L.end()), n);
+            }
             {
                 // the same list through a const reference (the const begin()/end() overloads, range-for)
                 const auto &CL = L;
@@ -1160,7 +1194,9 @@ void t_slist(Src &s, Case &c)
         else if (op == 2 && !cxx)
         {
             c.log("pop_first ");
-            slist_head *r = slist_pop_first(chead.get());
+            // every other pop of a non-empty list goes through the entry form of the macro
+            const bool as_entry = !model.empty() && (model.size() + (size_t)a) % 2 == 0;
+            slist_head *r = as_entry ? &slist_pop_first_entry(chead.get(), SNode, lnk)->lnk : slist_pop_first(chead.get());
             if (model.empty())
                 VP_CHECK(r == nullptr, "slist_pop_empty", "slist_pop_first on an empty list returned %p", (void *)r);
             else
